@@ -211,8 +211,21 @@ def parse_assumptions(out):
     return blocks
 
 
+# Print Assumptions prints the shortest unambiguous name, so the FloatAxioms / PrimFloat / PrimInt63 entries
+# may appear unqualified when Floats is imported.
+FLOAT_AXIOMS_SHORT = {a.split(".", 1)[1] for a in AXIOM_ALLOW if a.startswith("FloatAxioms.")}
+PRIMITIVES_SHORT = {"float", "int", "add", "sub", "mul", "div", "sqrt", "opp", "abs", "eqb", "ltb", "leb", "compare",
+                    "classify", "of_uint63", "ldshiftexp", "frshiftexp", "normfr_mantissa", "next_up", "next_down",
+                    "lsl", "lsr", "land", "lor", "lxor", "addc", "subc", "mod", "head0", "tail0", "diveucl",
+                    "addcarryc", "subcarryc", "mulc", "diveucl_21", "addmuldiv", "asr", "divs", "mods", "ltsb", "lesb", "compares"}
+
+
+def is_primitive(name):
+    return name.startswith(PRIMITIVE_PREFIXES) or name in PRIMITIVES_SHORT
+
+
 def axiom_ok(name):
-    return name in AXIOM_ALLOW or name.startswith(PRIMITIVE_PREFIXES)
+    return name in AXIOM_ALLOW or name in FLOAT_AXIOMS_SHORT or is_primitive(name)
 
 
 def forbidden_grep():
@@ -358,3 +371,55 @@ def write_evidence(pid, ev):
     os.makedirs(os.path.join(VERIF, "evidence"), exist_ok=True)
     with open(os.path.join(VERIF, "evidence", pid + ".json"), "w") as f:
         json.dump(ev, f, indent=1, default=str)
+
+
+# ---------------------------------------------------------------- translator tie (regenerated every run)
+
+def translator_tie(specs):
+    """specs: list of dict(rust=<path under /repo>, gen=<module name under Gen>, model=<EG module of the
+    hand-written definitions>, fns=[coq names], types=<import string>, extra_structs/extra_enums, fields=[type names]).
+    Regenerates coq/Gen/<gen>.v from the Rust source, compiles it, and checks `@Gen.f = @Model.f` by reflexivity,
+    one obligation per function.  Returns [(name, ok, detail)]."""
+    import rs2v
+    items = []
+    gen_dir = os.path.join(COQ, "Gen")
+    os.makedirs(gen_dir, exist_ok=True)
+    with Lock("gen"):
+        for sp in specs:
+            for f in os.listdir(gen_dir):
+                if f.startswith(sp["gen"] + ".") or f.startswith("tie_%s_" % sp["gen"]):
+                    os.remove(os.path.join(gen_dir, f))
+            path = os.path.join(REPO, sp["rust"])
+            try:
+                txt, res, _, _ = rs2v.translate_file(path, sp["gen"], set(sp["fns"]), sp.get("types", "Model.Types"),
+                                                    sp.get("extra_structs"), sp.get("extra_enums"))
+            except Exception as e:  # noqa
+                for fn in sp["fns"]:
+                    items.append(("%s.%s" % (sp["gen"], fn), False, "translator failed on %s: %r" % (sp["rust"], e)))
+                continue
+            gpath = os.path.join(gen_dir, sp["gen"] + ".v")
+            open(gpath, "w").write(txt)
+            rc, out, err = run(["timeout", "300", "coqc", "-noglob", "-Q", COQ, "EG", gpath], cwd=COQ)
+            if rc != 0:
+                for fn in sp["fns"]:
+                    items.append(("%s.%s" % (sp["gen"], fn), False, "generated file does not compile: " + (err or out)[-400:]))
+                continue
+            procs = []
+            names = [(fn, "@EG.Gen.%s.%s" % (sp["gen"], fn), "@EG.%s.%s" % (sp["model"], fn)) for fn in sp["fns"]]
+            names += [("fields_" + t, "EG.Gen.%s.fields_%s" % (sp["gen"], t), "EG.Model.Types.fields_%s" % t) for t in sp.get("fields", [])]
+            for fn, g, m in names:
+                if res.get(fn) is not None and not fn.startswith("fields_"):
+                    items.append(("%s.%s" % (sp["gen"], fn), False, res[fn]))
+                    continue
+                tpath = os.path.join(gen_dir, "tie_%s_%s.v" % (sp["gen"], fn))
+                open(tpath, "w").write(
+                    "From EG Require Import Num.Num Model.Types %s Gen.%s.\n"
+                    "Lemma tie : %s = %s.\nProof. reflexivity. Qed.\n" % (sp["model"], sp["gen"], g, m))
+                p = subprocess.Popen(["timeout", "120", "coqc", "-noglob", "-Q", COQ, "EG", tpath], cwd=COQ,
+                                     stdout=subprocess.PIPE, stderr=subprocess.PIPE, text=True)
+                procs.append((fn, p))
+            for fn, p in procs:
+                o, e = p.communicate()
+                items.append(("%s.%s" % (sp["gen"], fn), p.returncode == 0,
+                              "" if p.returncode == 0 else "regenerated definition is not convertible with the model: " + (e or o)[-300:]))
+    return items
